@@ -840,7 +840,7 @@ func AllFilesOf(prog *load.Program, fn *ssa.Function, global string) Result {
 			if !ok {
 				continue
 			}
-			for _, succ := range b.Succs {
+			for side, succ := range b.Succs {
 				next := succ == hdr
 				if !next && len(succ.Instrs) == 1 && len(succ.Succs) == 1 && succ.Succs[0] == hdr {
 					_, next = succ.Instrs[0].(*ssa.Jump)
@@ -848,12 +848,22 @@ func AllFilesOf(prog *load.Program, fn *ssa.Function, global string) Result {
 				if !next {
 					continue
 				}
-				cond := iff.Cond
+				// the edge is taken when cond == (side == 0); it must mean "does not exist"
+				cond, when := iff.Cond, side == 0
 				if u, ok := cond.(*ssa.UnOp); ok && u.Op == token.NOT {
-					cond = u.X
+					cond, when = u.X, !when
 				}
 				c, ok := cond.(*ssa.Call)
-				if !ok || !strings.HasSuffix(calleeName(&c.Call), "Path).Exist") {
+				absent := false
+				if ok {
+					switch {
+					case strings.HasSuffix(calleeName(&c.Call), "Path).Exist"):
+						absent = !when
+					case strings.HasSuffix(calleeName(&c.Call), "Path).NotExist"):
+						absent = when
+					}
+				}
+				if !absent {
 					res.Detail = "an element of the listing can be passed over (" + prog.Pos(iff.Cond.Pos()) + ": " + iff.Cond.String() + ") for another reason than that the file does not exist"
 					return res
 				}
